@@ -7,6 +7,8 @@ package c17
 import (
 	"fmt"
 	"net/http"
+	"os"
+	"os/exec"
 	"sort"
 	"strconv"
 	"strings"
@@ -545,24 +547,87 @@ func (g *gen) shareCase(n int, maxLen int) {
 			g.request("GET", false, c)
 		}
 	})
-	// (4) histories: delete a share, undelete it, delete it again
+	// (4) histories of delete claims. The documented rule: a blob is deleted iff SOME delete claim
+	// targeting it is not itself deleted. Several delete claims per share, undone in either order,
+	// every chain neighbourhood re-requested after each step.
+	base := append([]int(nil), alpha...)
+	reenumerate := func(label string) {
+		g.r.Hit("del-state:" + label + ":" + g.delState(shares))
+		// every chain up to 2 over everything stored by now (delete claims included)
+		g.enumerate(g.alphabet(), 2, func(c []int) { g.request("GET", false, c) })
+		// every chain up to 3 that starts at a share, over the blobs of the original store
+		for _, s := range shares {
+			g.enumerate(base, 2, func(c []int) {
+				g.request("GET", false, append([]int{s}, c...))
+			})
+			g.request("HEAD", false, []int{s})
+			g.request("GET", true, []int{s})
+		}
+		// every link-following walk (what the share gives access to when it is live)
+		g.walks(shares, 8, func(c []int) { g.request("GET", false, c) })
+	}
 	victim := shares[0]
 	d1 := g.del(victim)
 	g.r.Hit("mech:deleted-lookup")
-	g.enumerate(g.alphabet(), 3, func(c []int) { g.request("GET", false, c) })
-	d2 := g.del(d1)
-	g.enumerate(g.alphabet(), 3, func(c []int) { g.request("GET", false, c) })
-	if r.R.Bool() {
-		g.del(d2)
+	reenumerate("one-deleter")
+	d2 := g.del(victim) // a second, newer delete claim of the same share
+	reenumerate("two-deleters")
+	if n%2 == 0 {
+		g.del(d2) // the newer one undone, the older still live: still deleted
+		reenumerate("newer-undone")
+		u1 := g.del(d1) // both undone: live again
+		reenumerate("both-undone")
+		g.del(u1) // the undo of the older one undone: deleted again
+		reenumerate("undo-undone")
 	} else {
-		g.del(victim) // a second, live delete claim of the share itself
+		g.del(d1) // the older one undone, the newer still live: still deleted
+		reenumerate("older-undone")
+		u2 := g.del(d2)
+		reenumerate("both-undone")
+		g.del(victim) // a third delete claim
+		reenumerate("third-deleter")
+		_ = u2
 	}
-	g.enumerate(g.alphabet(), 2, func(c []int) { g.request("GET", false, c) })
-	g.enumerate(append(append([]int(nil), shares...), g.u.blobs[victim].target), 4, func(c []int) {
-		if c[0] == victim && c[len(c)-1] >= 0 {
-			g.request("GET", false, c)
+	// a second share: deleted, undeleted, and its deleter deleted twice (two live undoers, one undone)
+	if len(shares) > 1 {
+		w := shares[1]
+		dw := g.del(w)
+		ua := g.del(dw)
+		ub := g.del(dw)
+		reenumerate("two-undoers")
+		g.del(ua) // one undoer undone, the other still live: dw stays deleted, the share stays live
+		reenumerate("one-undoer-undone")
+		g.del(ub) // both undoers undone: dw live again, the share deleted
+		reenumerate("both-undoers-undone")
+	}
+	// deleting other blobs of the chain (the target, a via blob) must not change what a share gives
+	if t := g.u.blobs[shares[len(shares)-1]].target; t >= 0 && g.u.blobs[t] != nil && g.u.blobs[t].kind == "share" {
+		g.del(t)
+		reenumerate("target-share-deleted")
+	}
+}
+
+// delState: per share, the liveness of its delete claims in age order, e.g. "LU" = the older one
+// live, the newer one undone; "-" = never deleted
+func (g *gen) delState(shares []int) string {
+	var parts []string
+	for _, s := range shares {
+		st := ""
+		for _, d := range g.u.dels {
+			if d[1] == s {
+				if g.u.deleted(d[0]) {
+					st += "U"
+				} else {
+					st += "L"
+				}
+			}
 		}
-	})
+		if st == "" {
+			st = "-"
+		}
+		parts = append(parts, st)
+	}
+	return strings.Join(parts, "/")
 }
 
 // ---- known / fixed findings: witnesses -------------------------------------------------------------------
@@ -619,14 +684,77 @@ var rootSubs = []string{"", "?camli.mode=config", "favicon.ico", "mobile-setup",
 var shareSubs = []string{"", "%R", "%S", "%R?via=%S", "%R?via=%S&assemble=1", "%S?via=%S", "%K?via=%S", "nonsense", "%R?via=%R"}
 var credSubs = []string{"", "%R", "enumerate-blobs", "stat", "camli/enumerate-blobs"}
 
-func (g *gen) access(s *srvWorld, prefix string, pi prefixInfo, creds bool, method, sub string) (int, string, string) {
-	line := fmt.Sprintf("access %s %s %s %s %s %s %s", pi.htype, b01(pi.internal), b01(creds), prefix, method, hexStr(sub), s.spec)
+func (g *gen) access(s *srvWorld, prefix string, pi prefixInfo, creds string, method, sub string) (int, string, string) {
+	line := accessLine(s.spec, prefix, pi, creds, method, sub)
 	out := g.op(line)
 	rec := g.w.lastRec
 	if rec == nil {
 		return 0, "", out
 	}
 	return rec.Code, rec.Body.String(), out
+}
+
+func accessLine(spec, prefix string, pi prefixInfo, creds, method, sub string) string {
+	return fmt.Sprintf("access %s %s %s %s %s %s %s", pi.htype, b01(pi.internal), creds, prefix, method, hexStr(sub), spec)
+}
+
+func subsFor(pi prefixInfo) []string {
+	switch {
+	case isStorage(pi.htype):
+		return storageSubs
+	case pi.htype == "root":
+		return rootSubs
+	case pi.htype == "share":
+		return shareSubs
+	}
+	return handlerSubs
+}
+
+func isSelfGuarded(ht string) bool { return ht == "root" || ht == "share" || ht == "app" }
+
+// judge one credential-less answer (plain or dressed up) of the in-process server
+func (g *gen) judge(s *srvWorld, p string, pi prefixInfo, cred, m, sub string, code int, body, out string) {
+	r := g.r
+	replay := []string{accessLine(s.spec, p, pi, cred, m, sub)}
+	legit := pi.htype == "share" && strings.Contains(sub, "via=%S")
+	if strings.Contains(body, secretMarker) && !legit {
+		r.Fail("secret-blob-leaked:"+pi.htype, fmt.Sprintf("%s %s%s (%s) without credentials carries the secret blob", m, p, sub, cred), "no blob bytes", fmt.Sprint(code), replay)
+	}
+	if strings.Contains(body, "blobRoot") || strings.Contains(body, "publicKeyBlobRef") || strings.Contains(body, "authToken") {
+		r.Fail("unauthenticated-discovery-served", fmt.Sprintf("%s %s%s (%s) -> %d carries the discovery document", m, p, sub, cred, code), "no discovery", fmt.Sprint(code), replay)
+	}
+	isGet := m == "GET" || m == "HEAD"
+	switch {
+	case !isSelfGuarded(pi.htype):
+		r.Hit("mech:guarded-request-refused")
+		if code != http.StatusUnauthorized && code != http.StatusForbidden {
+			sig := "unauthenticated-request-served:" + pi.htype
+			if cred != "0" {
+				sig = "unauthenticated-request-served:" + cred + ":" + pi.htype
+			}
+			r.Fail(sig, fmt.Sprintf("%s %s%s (%s) without credentials -> %d (%s)", m, p, sub, cred, code, out), "401", fmt.Sprint(code), replay)
+		}
+	case pi.htype == "root":
+		if strings.Contains(sub, "camli.mode=config") && isGet && code != http.StatusUnauthorized && !pi.internal {
+			r.Fail("unauthenticated-discovery-served", fmt.Sprintf("%s %s%s (%s) -> %d", m, p, sub, cred, code), "401", fmt.Sprint(code), replay)
+		}
+		r.Hit(fmt.Sprintf("root-status:%d", code))
+		pathOnly, _, _ := strings.Cut(sub, "?")
+		if code == 200 && pathOnly != "" && pathOnly != "favicon.ico" && !pi.internal {
+			r.Fail("root-serves-unexpected-path", fmt.Sprintf("%s %s%s -> 200", m, p, sub), "404", "200", replay)
+		}
+	case pi.htype == "share" && !pi.internal:
+		want200 := isGet && s.shareRef.Valid() && (sub == "%S" || sub == "%R?via=%S")
+		if want200 != (code == 200) && !strings.Contains(sub, "assemble") {
+			r.Fail("server-share-endpoint-wrong", fmt.Sprintf("%s %s%s (%s) -> %d", m, p, sub, cred, code), fmt.Sprint(want200), fmt.Sprint(code), replay)
+		}
+		if want200 && m == "GET" && sub == "%R?via=%S" && !strings.Contains(body, secretMarker) {
+			r.Fail("server-share-endpoint-wrong", "valid chain does not carry the blob", "blob", "other", replay)
+		}
+		if code == 200 {
+			r.Hit("mech:server-share-200")
+		}
+	}
 }
 
 func (g *gen) serverCase(spec string) {
@@ -641,7 +769,23 @@ func (g *gen) serverCase(spec string) {
 		return
 	}
 	if len(r.Res.Samples) < 5 {
-		r.Sample(map[string]any{"server": spec, "prefixes": s.sortedPrefixes(), "fixed": s.fixedPaths()})
+		r.Sample(map[string]any{"server": spec, "prefixes": s.sortedPrefixes(), "fixed": s.fixedPaths(), "shapes": shapes})
+	}
+	// discovery: served to valid credentials (from here on the process has handed out its auth token),
+	// refused to everything else
+	for _, p := range s.sortedPrefixes() {
+		if pi := s.prefixes[p]; pi.htype == "root" && !pi.internal {
+			if out := g.op(fmt.Sprintf("discovery %s 1 %s", p, spec)); out == "served" {
+				r.Hit("mech:discovery-served-to-credentials")
+			}
+			for _, c := range append([]string{"0"}, shapes...) {
+				line := fmt.Sprintf("discovery %s %s %s", p, c, spec)
+				if out := g.op(line); out != "401" {
+					r.Fail("unauthenticated-discovery-served", fmt.Sprintf("discovery %s with %s -> %s", p, c, out), "401", out, []string{line})
+				}
+				r.Hit("shape:" + c)
+			}
+		}
 	}
 	for _, p := range s.sortedPrefixes() {
 		pi := s.prefixes[p]
@@ -649,71 +793,41 @@ func (g *gen) serverCase(spec string) {
 		guard := g.op(gline)
 		r.Hit("guard:" + guard)
 		r.Hit("htype:" + pi.htype)
-		selfGuarded := pi.htype == "root" || pi.htype == "share" || pi.htype == "app"
-		if guard == "open" && !selfGuarded {
+		if guard == "open" && !isSelfGuarded(pi.htype) {
 			r.Fail("unguarded-handler-type:"+pi.htype, p+" is installed without an auth wrapper", "auth", guard, []string{gline})
 			continue // do not send unauthenticated writes to it
 		}
-		subs := handlerSubs
-		switch {
-		case isStorage(pi.htype):
-			subs = storageSubs
-		case pi.htype == "root":
-			subs = rootSubs
-		case pi.htype == "share":
-			subs = shareSubs
-		}
+		subs := subsFor(pi)
 		for _, sub := range subs {
 			for _, m := range allMethods {
-				code, body, out := g.access(s, p, pi, false, m, sub)
+				code, body, out := g.access(s, p, pi, "0", m, sub)
 				r.Distinct(fmt.Sprintf("%s|%s|%s|%s", spec, p, m, sub))
-				replay := []string{fmt.Sprintf("access %s %s 0 %s %s %s %s", pi.htype, b01(pi.internal), p, m, hexStr(sub), spec)}
-				legit := pi.htype == "share" && strings.Contains(sub, "via=%S")
-				if strings.Contains(body, secretMarker) && !legit {
-					r.Fail("secret-blob-leaked:"+pi.htype, fmt.Sprintf("%s %s%s without credentials carries the secret blob", m, p, sub), "no blob bytes", fmt.Sprint(code), replay)
-				}
-				switch {
-				case !selfGuarded:
-					r.Hit("mech:guarded-request-refused")
-					if code != http.StatusUnauthorized && code != http.StatusForbidden {
-						r.Fail("unauthenticated-request-served:"+pi.htype, fmt.Sprintf("%s %s%s without credentials -> %d (%s)", m, p, sub, code, out), "401", fmt.Sprint(code), replay)
+				g.judge(s, p, pi, "0", m, sub, code, body, out)
+			}
+		}
+		// the same without credentials but dressed up: every shape x every sub-path with GET, every
+		// shape x every method on the first two sub-paths
+		for _, c := range shapes {
+			for i, sub := range subs {
+				for _, m := range allMethods {
+					if m != "GET" && i > 1 {
+						continue
 					}
-				case pi.htype == "root":
-					isGet := m == "GET" || m == "HEAD"
-					if strings.Contains(sub, "camli.mode=config") && isGet && code != http.StatusUnauthorized && !pi.internal {
-						r.Fail("unauthenticated-discovery-served", fmt.Sprintf("%s %s%s -> %d", m, p, sub, code), "401", fmt.Sprint(code), replay)
-					}
-					if strings.Contains(body, "blobRoot") || strings.Contains(body, "publicKeyBlobRef") || strings.Contains(body, "authToken") {
-						r.Fail("unauthenticated-discovery-served", fmt.Sprintf("%s %s%s -> %d carries the discovery document", m, p, sub, code), "no discovery", fmt.Sprint(code), replay)
-					}
-					r.Hit(fmt.Sprintf("root-status:%d", code))
-					pathOnly, _, _ := strings.Cut(sub, "?")
-					if code == 200 && pathOnly != "" && pathOnly != "favicon.ico" && !pi.internal {
-						r.Fail("root-serves-unexpected-path", fmt.Sprintf("%s %s%s -> 200", m, p, sub), "404", "200", replay)
-					}
-				case pi.htype == "share" && !pi.internal:
-					isGet := m == "GET" || m == "HEAD"
-					want200 := isGet && s.shareRef.Valid() && (sub == "%S" || sub == "%R?via=%S")
-					if want200 != (code == 200) && !strings.Contains(sub, "assemble") {
-						r.Fail("server-share-endpoint-wrong", fmt.Sprintf("%s %s%s -> %d", m, p, sub, code), fmt.Sprint(want200), fmt.Sprint(code), replay)
-					}
-					if want200 && m == "GET" && sub == "%R?via=%S" && !strings.Contains(body, secretMarker) {
-						r.Fail("server-share-endpoint-wrong", "valid chain does not carry the blob", "blob", "other", replay)
-					}
-					if code == 200 {
-						r.Hit("mech:server-share-200")
-					}
+					code, body, out := g.access(s, p, pi, c, m, sub)
+					r.Distinct(fmt.Sprintf("%s|%s|%s|%s|%s", spec, p, m, sub, c))
+					r.Hit("shape:" + c)
+					g.judge(s, p, pi, c, m, sub, code, body, out)
 				}
 			}
 		}
 		// positive control: valid credentials get past every guard except `deny`
-		if !selfGuarded {
+		if !isSelfGuarded(pi.htype) {
 			for _, sub := range credSubs {
 				if isStorage(pi.htype) == strings.HasPrefix(sub, "camli/") {
 					continue
 				}
 				for _, m := range []string{"GET", "HEAD"} {
-					code, _, _ := g.access(s, p, pi, true, m, sub)
+					code, _, _ := g.access(s, p, pi, "1", m, sub)
 					if code != http.StatusUnauthorized {
 						r.Hit("mech:credentials-accepted")
 					}
@@ -729,13 +843,137 @@ func (g *gen) serverCase(spec string) {
 			rec := g.w.lastRec
 			r.Fail("unauthenticated-fixed-endpoint-served:"+p, fmt.Sprintf("GET %s without credentials -> %d", p, rec.Code), "401", fmt.Sprint(rec.Code), []string{line})
 		}
-		if out != "none" {
-			for _, m := range allMethods[1:] {
-				rec := s.do(m, p, false, "")
+		if out == "none" {
+			continue
+		}
+		for _, c := range shapes {
+			sl := line + " " + c
+			if o := g.op(sl); o != "auth" {
+				r.Fail("unauthenticated-fixed-endpoint-served:"+c+":"+p, fmt.Sprintf("GET %s (%s) without credentials -> %d", p, c, g.w.lastRec.Code), "401", o, []string{sl})
+			}
+		}
+		for _, m := range allMethods[1:] {
+			for _, c := range append([]string{"0"}, shapes...) {
+				rec := s.do(m, p, c, "")
 				r.ImplOnly("fixed-endpoint-method")
 				if rec.Code != http.StatusUnauthorized && rec.Code != http.StatusForbidden {
-					r.Fail("unauthenticated-fixed-endpoint-served:"+p, fmt.Sprintf("%s %s without credentials -> %d", m, p, rec.Code), "401", fmt.Sprint(rec.Code), []string{line})
+					r.Fail("unauthenticated-fixed-endpoint-served:"+p, fmt.Sprintf("%s %s (%s) without credentials -> %d", m, p, c, rec.Code), "401", fmt.Sprint(rec.Code), []string{line})
 				}
+			}
+		}
+	}
+}
+
+// freshProcessCase: the credential-less request shapes against a server in a freshly started process:
+// the harness binary is re-executed in replay mode on the ops, so nothing – no credentialed request,
+// no discovery, no auth.Token() – has happened in that process before the first shape arrives. The
+// dressed-up requests come first, discovery attempts last.
+func (g *gen) freshProcessCase(spec string) {
+	r := g.r
+	r.Case("fresh-process " + spec)
+	// the prefixes of this configuration (a configuration is deterministic; building it here does not
+	// touch the child's state)
+	s, err := buildServer(spec)
+	if err != nil {
+		r.Fail("harness-server-setup-failed", spec+": "+err.Error(), "", "", nil)
+		return
+	}
+	type item struct {
+		line  string
+		htype string
+		kind  string // access | discovery | fixed | close
+		cred  string
+	}
+	var items []item
+	order := append([]string{"s-ws", "s-ws-empty", "s-ws-token-hdr", "s-token-empty", "s-basic-empty"}, shapes...)
+	seen := map[string]bool{}
+	for _, c := range order {
+		if seen[c] {
+			continue
+		}
+		seen[c] = true
+		for _, p := range s.sortedPrefixes() {
+			pi := s.prefixes[p]
+			if isSelfGuarded(pi.htype) {
+				continue
+			}
+			subs := subsFor(pi)
+			if len(subs) > 6 {
+				subs = subs[:6]
+			}
+			for _, sub := range subs {
+				items = append(items, item{accessLine(spec, p, pi, c, "GET", sub), pi.htype, "access", c})
+			}
+		}
+		for _, p := range s.fixedPaths() {
+			items = append(items, item{fmt.Sprintf("fixed %s %s %s", p, spec, c), p, "fixed", c})
+		}
+		for _, p := range s.sortedPrefixes() {
+			if pi := s.prefixes[p]; pi.htype == "root" && !pi.internal {
+				items = append(items, item{fmt.Sprintf("discovery %s %s %s", p, c, spec), "root", "discovery", c})
+			}
+		}
+	}
+	for _, p := range s.sortedPrefixes() {
+		pi := s.prefixes[p]
+		if !isSelfGuarded(pi.htype) {
+			items = append(items, item{accessLine(spec, p, pi, "0", "GET", ""), pi.htype, "access", "0"})
+		}
+	}
+	s.close()
+	items = append(items, item{"srvclose", "", "close", ""})
+
+	dir, err := os.MkdirTemp("", "pkh-c17-child-")
+	if err != nil {
+		r.Fail("harness-child-failed", err.Error(), "", "", nil)
+		return
+	}
+	defer os.RemoveAll(dir)
+	var b strings.Builder
+	for _, it := range items {
+		b.WriteString(it.line + "\n")
+	}
+	opsFile := dir + "/ops.txt"
+	if err := os.WriteFile(opsFile, []byte(b.String()), 0o600); err != nil {
+		r.Fail("harness-child-failed", err.Error(), "", "", nil)
+		return
+	}
+	self, err := os.Executable()
+	if err != nil {
+		r.Fail("harness-child-failed", err.Error(), "", "", nil)
+		return
+	}
+	cmd := exec.Command(self, "-replay", opsFile)
+	cmd.Env = append(os.Environ(), "PKH_C17_KEEPSRV=1")
+	outBytes, err := cmd.Output()
+	outs := strings.Split(strings.TrimRight(string(outBytes), "\n"), "\n")
+	if err != nil || len(outs) != len(items) {
+		r.Fail("harness-child-failed", fmt.Sprintf("child: %v, %d answers for %d ops", err, len(outs), len(items)), "", "", nil)
+		return
+	}
+	r.Hit("mech:fresh-process-sweep")
+	for i, it := range items {
+		out := outs[i]
+		r.Op(it.line, out)
+		if it.kind != "close" {
+			r.Hit("fresh-shape:" + it.cred)
+			r.Distinct("fresh|" + it.line)
+		}
+		switch it.kind {
+		case "access":
+			if out != "401" {
+				r.Fail("unauthenticated-request-served-in-fresh-process:"+it.cred+":"+it.htype,
+					fmt.Sprintf("in a freshly started process: %s -> %s", it.line, out), "401", out, []string{it.line})
+			}
+		case "fixed":
+			if out != "auth" {
+				r.Fail("unauthenticated-fixed-endpoint-served-in-fresh-process:"+it.cred+":"+it.htype,
+					fmt.Sprintf("in a freshly started process: %s -> %s", it.line, out), "auth", out, []string{it.line})
+			}
+		case "discovery":
+			if out != "401" {
+				r.Fail("unauthenticated-discovery-served-in-fresh-process:"+it.cred,
+					fmt.Sprintf("in a freshly started process: %s -> %s", it.line, out), "401", out, []string{it.line})
 			}
 		}
 	}
@@ -795,12 +1033,22 @@ func Run(r *hk.Run) {
 		g.shareCase(n+int(r.Res.Seed)*stores, maxLen)
 	}
 	g.probes()
-	for _, spec := range serverSpecs(r) {
+	specs := serverSpecs(r)
+	// first of all server work: unauthenticated request shapes against servers in freshly started
+	// processes (no credentials were ever presented there, auth.Token() was never asked for)
+	nFresh := 2
+	if r.Thorough() {
+		nFresh = 5
+	}
+	for i := 0; i < nFresh && i < len(specs); i++ {
+		g.freshProcessCase(specs[i] + ",fresh=1")
+	}
+	for _, spec := range specs {
 		g.serverCase(spec)
 	}
 	// F-C17-2: the unauthenticated /debug endpoints
 	if s, err := buildServer("sto=mem,idx=mem,share=-,auth=userpass,low=0"); err == nil {
-		a, b := s.do("GET", "/debug/vars", false, ""), s.do("GET", "/debug/pprof/goroutine?debug=1", false, "")
+		a, b := s.do("GET", "/debug/vars", "0", ""), s.do("GET", "/debug/pprof/goroutine?debug=1", "0", "")
 		r.Probe("F-C17-2", a.Code != 401 || b.Code != 401, fmt.Sprintf("GET /debug/vars -> %d, GET /debug/pprof/goroutine -> %d without credentials", a.Code, b.Code))
 		s.close()
 	}
